@@ -495,6 +495,25 @@ func c04Scenarios(tier string) []*Scenario {
 			Check: chk, NoTick: true,
 		})
 	}
+	// the pipeline of the running job was dropped by a reload: an acknowledged cancel still ends it as canceled
+	for _, g := range []struct {
+		n string
+		g map[string][]string
+	}{{"one", graphOne}, {"chain", graphChain}} {
+		g := g
+		with := mkDefs(map[string]PipeCfg{"p": {Conc: 1, QL: -1, Graph: g.g}, "z": {Conc: 1, QL: -1, Graph: graphOne}})
+		without := mkDefs(map[string]PipeCfg{"z": {Conc: 1, QL: -1, Graph: graphOne}})
+		scs = append(scs, &Scenario{
+			Name: "cancel-running/pipeline-dropped-by-reload/" + g.n,
+			Desc: "one job runs; a reload drops its pipeline; a client cancels the job at every possible instant",
+			Opts: func() WorldOpts { return WorldOpts{Defs: []*definitionPipelinesDef{with, without}} },
+			Setup: func(w *World) {
+				w.SpawnDriver(Op{Kind: "S", Pipeline: "p"}, Op{Kind: "R", Def: 1})
+				w.SpawnDriver(Op{Kind: "C", Job: 1, WaitAccepted: 1})
+			},
+			Check: chk, NoTick: true, Bound: heavyBound(tier),
+		})
+	}
 	for _, cont := range []bool{false, true} {
 		cont := cont
 		cfg := PipeCfg{Conc: 1, QL: -1, Graph: graphPar, Continue: cont}
